@@ -47,7 +47,13 @@ fn main() {
                         break;
                     }
                 }
+            } else if rng.chance(1, 5) && !merge_pool(&mut rng, &mut d, &mut desc_counter, &mut outcome) {
+                kinds.insert("mergepool");
             } else {
+            if !d.ops.is_empty() {
+                kinds.insert("mergepool");
+                kinds.insert("rebase");
+            }
             'outer: for _t in 0..n_tx {
                 let n_ops = 1 + rng.usize(7);
                 for _k in 0..n_ops {
@@ -236,18 +242,88 @@ fn main() {
                 ctx.note(format!("case {i}: {} commits appeared that the driver did not see created", d.untracked));
             }
             let shape = format!(
-                "tx={} out={:?} rebase={} wc={} bm={} fast={}",
+                "tx={} out={:?} rebase={} wc={} bm={} mergepool={}",
                 d.views.len().min(4),
                 outcome,
                 kinds.contains("rebase"),
                 kinds.contains("edit") || kinds.contains("checkout"),
                 kinds.contains("bookmark"),
-                fast.min(1)
+                kinds.contains("mergepool") || (i >= 3 && i <= 6)
             );
+            let _ = fast;
             let nontrivial = d.views.len() >= 1 && d.n() >= 3;
             ctx.emit(i, term, nontrivial, &shape);
         }
     });
+}
+
+fn dflt() -> Opts {
+    Opts { imm: vec![], empty: 0, delete_abandoned: false, simplify: false, oracle: vec![] }
+}
+
+/// Pool "merge over a hidden commit": builds heads {H, P} (H possibly on top of a visible
+/// non-head V), a hidden chain K.. below P's descendants (created on top of P, then abandoned),
+/// and then writes (or re-adds with add_heads) a merge commit whose parent list mixes the current
+/// head H, a hidden commit descending from the OTHER head P, and optionally the visible non-head
+/// V, in a random order. Not every parent is a head, so add_heads must take the general path and
+/// the commit must normalize P away. Returns false if an operation failed.
+fn merge_pool(rng: &mut jjv::Rng, d: &mut Driver, desc_counter: &mut u64, outcome: &mut Outcome) -> bool {
+    let mut run = |d: &mut Driver, op: Op| -> bool {
+        *outcome = d.apply(op);
+        *outcome == Outcome::Ok
+    };
+    let mut next = |c: &mut u64| {
+        *c += 1;
+        *c
+    };
+    let base = d.n();
+    // V (visible non-head, optional) and H (head)
+    let with_v = rng.chance(1, 2);
+    if !run(d, Op::New { ps: vec![0], desc: next(desc_counter), empty: false }) { return false; }
+    let v = base;
+    let h = if with_v {
+        if !run(d, Op::New { ps: vec![v], desc: next(desc_counter), empty: rng.chance(1, 3) }) { return false; }
+        d.n() - 1
+    } else {
+        v
+    };
+    // P (the other head) and the chain K1 (.. K2) on top of it
+    if !run(d, Op::New { ps: vec![0], desc: next(desc_counter), empty: false }) { return false; }
+    let p = d.n() - 1;
+    if !run(d, Op::New { ps: vec![p], desc: next(desc_counter), empty: false }) { return false; }
+    let k1 = d.n() - 1;
+    let deep = rng.chance(1, 3);
+    let k = if deep {
+        if !run(d, Op::New { ps: vec![k1], desc: next(desc_counter), empty: false }) { return false; }
+        d.n() - 1
+    } else {
+        k1
+    };
+    let readd = rng.chance(1, 3);
+    let mut ps = vec![h, k];
+    if with_v && rng.chance(1, 2) {
+        ps.push(v);
+    }
+    rng.shuffle(&mut ps);
+    let mut x = 0usize;
+    if readd {
+        // the merge commit exists already and is hidden together with the chain
+        if !run(d, Op::New { ps: ps.clone(), desc: next(desc_counter), empty: rng.chance(1, 3) }) { return false; }
+        x = d.n() - 1;
+    }
+    if !run(d, Op::Commit) { return false; }
+    if readd && !run(d, Op::Abandon(x)) { return false; }
+    if deep && !run(d, Op::Abandon(k)) { return false; }
+    if !run(d, Op::Abandon(k1)) { return false; }
+    if !run(d, Op::Rebase(dflt())) { return false; }
+    if !run(d, Op::Commit) { return false; }
+    // now the heads are {H, P} and K (and X) are hidden
+    if readd {
+        if !run(d, Op::AddHeads(vec![x])) { return false; }
+    } else if !run(d, Op::New { ps, desc: next(desc_counter), empty: rng.chance(1, 3) }) {
+        return false;
+    }
+    run(d, Op::Commit)
 }
 
 /// Hand-written edge cases, always run first.
@@ -260,6 +336,32 @@ fn corpus() -> Vec<Vec<Op>> {
         vec![new(&[0], 1), Op::AddHeads(vec![0]), Op::Commit],
         // add_heads slow path with redundant ancestors
         vec![new(&[0], 1), new(&[1], 2), new(&[0], 3), Op::Commit, Op::AddHeads(vec![1, 2, 0]), Op::Commit],
+        // merge commit whose parents mix a current head (1) and a hidden commit (3) that descends
+        // from ANOTHER current head (2): not every parent is a head, so the general path must
+        // normalize (heads = {4}; an `any`-parent fast path would leave 2 next to its descendant 4)
+        vec![
+            new(&[0], 1), new(&[0], 2), new(&[2], 3), Op::Commit,
+            Op::Abandon(3), Op::Rebase(dflt()), Op::Commit,
+            new(&[1, 3], 4), Op::Commit,
+        ],
+        // the same with the head last
+        vec![
+            new(&[0], 1), new(&[0], 2), new(&[2], 3), Op::Commit,
+            Op::Abandon(3), Op::Rebase(dflt()), Op::Commit,
+            new(&[3, 1], 4), Op::Commit,
+        ],
+        // three parents: current head (2), hidden descendant (4) of another head (3), visible non-head (1)
+        vec![
+            new(&[0], 1), new(&[1], 2), new(&[0], 3), new(&[3], 4), Op::Commit,
+            Op::Abandon(4), Op::Rebase(dflt()), Op::Commit,
+            new(&[2, 4, 1], 5), Op::Commit,
+        ],
+        // add_heads of an EXISTING hidden merge commit (4) with parents [head 1, hidden 3 below head 2]
+        vec![
+            new(&[0], 1), new(&[0], 2), new(&[2], 3), new(&[1, 3], 4), Op::Commit,
+            Op::Abandon(4), Op::Abandon(3), Op::Rebase(dflt()), Op::Commit,
+            Op::AddHeads(vec![4]), Op::Commit,
+        ],
         // bookmark on a hidden commit makes it visible again
         vec![
             new(&[0], 1),
